@@ -23,6 +23,7 @@ so you could have examples like:
 from __future__ import annotations
 import dataclasses
 import enum
+import re
 import typing as T
 
 
@@ -46,6 +47,9 @@ class TokenType(enum.Enum):
     NOT = enum.auto()
     COMMA = enum.auto()
     EQUAL = enum.auto()
+
+
+_IDENTIFIER_RE = re.compile(r'[A-Za-z_][A-Za-z0-9_]*')
 
 
 def lexer(raw: str) -> _LEX_STREAM:
@@ -74,6 +78,8 @@ def lexer(raw: str) -> _LEX_STREAM:
             elif val == 'not':
                 yield (TokenType.NOT, None)
             elif val:
+                if not _IDENTIFIER_RE.fullmatch(val):
+                    raise MesonException(f'Invalid identifier {val!r} in cfg expression: {raw}')
                 yield (TokenType.IDENTIFIER, val)
 
             if s == '(':
@@ -91,6 +97,8 @@ def lexer(raw: str) -> _LEX_STREAM:
     val = raw[start:]
     if val:
         # This should always be an identifier
+        if not _IDENTIFIER_RE.fullmatch(val):
+            raise MesonException(f'Invalid identifier {val!r} in cfg expression: {raw}')
         yield (TokenType.IDENTIFIER, val)
 
 
